@@ -1072,6 +1072,97 @@ def _corr_opts(ctx, model):
             _opt_case(ctx, model, spec, ops)
 
 
+# ==============================================================================================
+# (A7) the jit option of linear operators: which callable each private slot holds and how deeply it is wrapped
+#      (model: LinOpState; theorems C19_jit_slots / C19_jit_value)
+
+
+def _jit_depth(f):
+    d = 0
+    while type(f).__name__ == "PjitFunction" and hasattr(f, "__wrapped__"):
+        f = f.__wrapped__
+        d += 1
+    return d, f
+
+
+def _jit_case(ctx, model, variant, jit_opt, ops):
+    import jax.numpy as jnp
+    from scico import linop
+
+    M = np.array([[1.0, 2.0, 0.0, -1.0], [0.5, 0.0, 3.0, 1.0], [2.0, -1.0, 1.0, 0.0]])
+    Mj = jnp.asarray(M)
+    adj_fn = lambda y: Mj.T @ y  # noqa: E731
+
+    class ClassAdj(linop.LinearOperator):
+        def _eval(self, x):
+            return Mj @ x
+
+        def _adj(self, y):  # type: ignore
+            return Mj.T @ y
+
+    kw = {} if jit_opt is None else {"jit": jit_opt}
+    if variant == "adjFn":
+        A = linop.LinearOperator(input_shape=(4,), output_shape=(3,), eval_fn=lambda x: Mj @ x, adj_fn=adj_fn, input_dtype=np.float64, **kw)
+    elif variant == "classAdj":
+        A = ClassAdj(input_shape=(4,), output_shape=(3,), input_dtype=np.float64, output_dtype=np.float64, **kw)
+    else:
+        A = linop.LinearOperator(input_shape=(4,), output_shape=(3,), eval_fn=lambda x: Mj @ x, input_dtype=np.float64, **kw)
+
+    def state():
+        ad = None
+        if A._adj is not None:
+            d, base = _jit_depth(A._adj)
+            if base is adj_fn:
+                src = "given"
+            elif getattr(base, "__func__", None) is ClassAdj._adj:
+                src = "classMethod"
+            elif "_set_adjoint" in getattr(base, "__qualname__", ""):
+                src = "derived"
+            else:
+                src = "other:" + getattr(base, "__qualname__", type(base).__name__)
+            ad = [src, d]
+        return {"eval": _jit_depth(A._eval)[0], "adj": ad, "gram": None if A._gram is None else _jit_depth(A._gram)[0]}
+
+    x = jnp.asarray([1.0, -2.0, 0.5, 3.0])
+    y = jnp.asarray([2.0, 1.0, -1.0])
+    states, vals_ok = [state()], True
+    for o in ops:
+        if o == "jit":
+            A.jit()
+        elif o == "call":
+            vals_ok &= bool(np.allclose(np.asarray(A(x)), M @ np.asarray(x), rtol=1e-12))
+        elif o == "adj":
+            vals_ok &= bool(np.allclose(np.asarray(A.adj(y)), M.T @ np.asarray(y), rtol=1e-12))
+        elif o == "gram":
+            vals_ok &= bool(np.allclose(np.asarray(A.gram(x)), M.T @ (M @ np.asarray(x)), rtol=1e-12))
+        else:
+            A.gram_op  # noqa: B018
+        states.append(state())
+    m = model.call("jit", variant=variant, jit=bool(jit_opt), ops=ops)
+    case = {"kind": "jit", "variant": variant, "jit": jit_opt, "ops": ops}
+    ctx.case(case, ("jit", variant, jit_opt, tuple(ops)))
+    ctx.count(f"jit:{variant}")
+    if states != m:
+        k = next(i for i, (a, b) in enumerate(zip(states, m)) if a != b)
+        ctx.disagree("cache.jit.slots", {**case, "at": k}, states[k], m[k])
+        return
+    if not vals_ok:
+        ctx.disagree("cache.jit.value", case, "a value differs from the dense matrix", "M x / M^T y / M^T M x",
+                     oracle=lambda c: {"case": c, "what": "operator value depends on the jit history"})
+
+
+def _corr_jit(ctx, model):
+    names = ["jit", "call", "adj", "gram", "gramOp"]
+    for variant in ("adjFn", "classAdj", "plain"):
+        for jit_opt in (None, False, True):
+            fixed = [[], ["gramOp", "adj", "jit", "call", "jit"], ["gram"], ["jit", "adj", "gram", "call"]]
+            seqs = fixed if jit_opt is not False else fixed[:1]
+            for _ in range(ctx.n(1, 5)):
+                seqs = seqs + [[names[int(i)] for i in ctx.rng.integers(0, 5, size=int(ctx.rng.integers(1, 7)))]]
+            for ops in seqs:
+                _jit_case(ctx, model, variant, jit_opt, ops)
+
+
 def _run_corpus(ctx, model):
     d = common.CORPUS_DIR / PROP
     if not d.exists():
@@ -1144,6 +1235,7 @@ def correspond(ctx, model):
     timed("rng", _corr_rng, ctx, model)
     timed("ctx", _corr_ctx, ctx, model)
     timed("opts", _corr_opts, ctx, model)
+    timed("jit", _corr_jit, ctx, model)
     timed("mutation", _corr_mutation, ctx)
     timed("modes", _corr_modes, ctx)
     _global_state_check(ctx, state0)
